@@ -491,3 +491,31 @@ func inlineAliases(info *types.Info, root ast.Node, e ast.Expr) ast.Expr {
 	}
 	return out
 }
+
+// byteAsRuneSites lists conversions rune(x) where x is a non-constant value
+// of type byte: a single byte of UTF-8 text is not a code point, so treating
+// it as one mangles (or misclassifies) every non-ASCII character. asciiKnown
+// is asked whether x is known to be < 0x80 at that position.
+func byteAsRuneSites(info *types.Info, body ast.Node, asciiKnown func(arg ast.Expr, pos token.Pos) bool) []*ast.CallExpr {
+	var out []*ast.CallExpr
+	ast.Inspect(body, func(x ast.Node) bool {
+		ce, ok := x.(*ast.CallExpr)
+		if !ok || !isConversion(info, ce) || len(ce.Args) != 1 {
+			return true
+		}
+		to, ok1 := info.TypeOf(ce).Underlying().(*types.Basic)
+		from, ok2 := info.TypeOf(ce.Args[0]).Underlying().(*types.Basic)
+		if !ok1 || !ok2 || to.Kind() != types.Int32 || from.Kind() != types.Uint8 {
+			return true
+		}
+		if tv, ok := info.Types[ce.Args[0]]; ok && tv.Value != nil {
+			return true
+		}
+		if asciiKnown != nil && asciiKnown(ce.Args[0], ce.Pos()) {
+			return true
+		}
+		out = append(out, ce)
+		return true
+	})
+	return out
+}
